@@ -710,7 +710,7 @@ func failKind(o rt.Outcome) string {
 func units(tier string) []engine.Unit {
 	maxN := 4
 	if tier == "thorough" {
-		maxN = 5
+		maxN = 6
 	}
 	var us []engine.Unit
 	add := func(name string, f func(r *engine.Rec)) { us = append(us, engine.Unit{Name: name, Run: f}) }
